@@ -65,6 +65,30 @@ Theorem C07_batch_all_ok :
     Forall2 (fun q ts => one q = POk ts) qs rs' -> multi Q T one i qs acc = MOk (acc ++ rs').
 Proof. exact multi_all_ok. Qed.
 
+(* the batch entry points run every member on ONE reused parser: as long as every call leaves the parser in a state in
+   which a call behaves like one on a fresh parser (the measured hypothesis "depth counter restored", C08's reset
+   theorems), the batch on the reused parser is the batch of individual calls ... *)
+Theorem C07_batch_reused_parser :
+  forall Q T St (one_st : St -> Q -> pres T * St) (s0 : St) (good : St -> Prop),
+    (forall s q, good s -> good (snd (one_st s q))) ->
+    (forall s q, good s -> fst (one_st s q) = fst (one_st s0 q)) ->
+    forall qs s i acc, good s ->
+      multi_st Q T St one_st s i qs acc = multi Q T (fun q => fst (one_st s0 q)) i qs acc.
+Proof. exact multi_st_refines. Qed.
+
+(* ... instantiated on the nesting-depth counter with balanced bookkeeping ... *)
+Theorem C07_batch_depth_balanced :
+  forall limit qs i acc, Forall (fun q => snd q = 0) qs ->
+    multi_st (nat * nat) nat nat (depth_one limit) 0 i qs acc
+    = multi (nat * nat) nat (fun q => fst (depth_one limit 0 q)) i qs acc.
+Proof. exact depth_batch_balanced. Qed.
+
+(* ... and false as soon as a member leaves one level behind: 101 queries, each accepted alone, the batch fails *)
+Theorem C07_batch_depth_leak_refuted :
+  Forall (fun q => fst (depth_one 100 0 q) = POk [fst q]) (repeat (1, 1) 101) /\
+  multi_st (nat * nat) nat nat (depth_one 100) 0 0 (repeat (1, 1) 101) [] = MErr 100 E_DEPTH.
+Proof. exact depth_batch_leak_refuted. Qed.
+
 (* THE PROPERTY: for every input whose front end (tokenize + convert) result has a token other than semicolons, any two
    entry points — Parse / ParseWithPositions / ParseContext (context never fires) / Validate / recovery, i.e. every
    entry point of the property by the loop copy it runs (Model/Wrappers.v) — both accept or both reject; those that
@@ -86,3 +110,6 @@ Print Assumptions C07_strict_refines.
 Print Assumptions C07_batch_ok.
 Print Assumptions C07_batch_first_failure.
 Print Assumptions C07_batch_all_ok.
+Print Assumptions C07_batch_reused_parser.
+Print Assumptions C07_batch_depth_balanced.
+Print Assumptions C07_batch_depth_leak_refuted.
